@@ -324,6 +324,11 @@ def run(tier, seed, replay=None):
         for cid in sample:
             if cid in run2.s2.removed:
                 continue
+            if "flat" in (meta[cid]["kinds"] or []):
+                # a non-exclusive anyOf is outside the faithful fragment (its flattened struct cannot hold the
+                # non-object alternatives): such graphs are judged on containment and compilation only
+                rep.count("flat_graph_compiled_no_roundtrip")
+                continue
             doc = meta[cid]["doc"]
             orc = oracle.Oracle(doc)
             res = res2[cid]
